@@ -39,7 +39,7 @@ TPIC = dict(name='16c84', cpu='16c84', alt='16c64', segs={'code': (1, 0, 2), 'da
 TARGETS = {'8051': T8051, '16c84': TPIC}
 
 OPS = ['ORG10', 'ORG41', 'RORG3', 'RORGm1', 'ALIGN2', 'ALIGN4', 'ALIGN3', 'DS1', 'DS3', 'DB1', 'DB2', 'SEGc', 'SEGd', 'SEGx',
-       'PH60', 'PHrel', 'PHld', 'DEPH', 'SAVE', 'REST', 'CPUalt', 'CPUmain', 'STRUCT12', 'UNION12', 'NEST', 'ANON']
+       'PH60', 'PHrel', 'PHld', 'DEPH', 'SAVE', 'REST', 'CPUalt', 'CPUmain', 'STRUCT12', 'UNION12', 'NEST', 'ANON', 'NESTI', 'ANONI']
 SEGOF = {'c': 'code', 'd': 'data', 'x': None}
 LIM = 0xff
 
@@ -149,6 +149,17 @@ def step(s, op, k, markers, syms):
         syms['S%d_C' % k] = 2
         syms['S%d_F2' % k] = 3
         syms['S%d_LEN' % k] = 4
+    elif op in ('NESTI', 'ANONI'):
+        # the same two structures, defined and then instantiated at the current address: every member of the instance is the
+        # instance's address plus the member's offset, and the instance occupies the structure's length
+        mem = {'NESTI': {'F1': 0, 'U_A': 1, 'U_B': 1, 'F2': 3}, 'ANONI': {'F1': 0, 'A': 1, 'B': 1, 'C': 2, 'F2': 3}}[op]
+        for m, o in mem.items():
+            syms['S%d_%s' % (k, m)] = o
+        syms['S%d_LEN' % k] = 4
+        syms['I%d' % k] = s.epc()
+        for m, o in mem.items():
+            syms['I%d_%s' % (k, m)] = s.epc() + o
+        s.pc[seg] += 4
     else:
         raise ValueError(op)
     s.chk()
@@ -172,6 +183,8 @@ def src_of(T, op, k, st=None):
     if op == 'ANON':
         return ['S%d\tstruct' % k, fld('F1', 1), '\tunion', fld('A', 2), '\tstruct', fld('B', 1), fld('C', 1), '\tendstruct', '\tendunion',
                 fld('F2', 1), 'S%d\tendstruct' % k]
+    if op in ('NESTI', 'ANONI'):
+        return src_of(T, op[:-1], k, st) + ['I%d\tS%d' % (k, k)]
     if op == 'PHld':
         return ['\tphase %d' % st.pc[st.seg]]
     m = {'ORG10': 'org 16', 'ORG41': 'org 65', 'RORG3': 'rorg 3', 'RORGm1': 'rorg -1', 'ALIGN2': 'align 2', 'ALIGN4': 'align 4',
@@ -273,7 +286,7 @@ def merged(tname, depth, ops):
 THEMES = {
     'phase': ['PH60', 'PHrel', 'PHld', 'DEPH', 'ORG10', 'DB1', 'SEGd', 'ALIGN4'],
     'save': ['SAVE', 'REST', 'CPUalt', 'CPUmain', 'SEGd', 'SEGx', 'DB1'],
-    'struct': ['STRUCT12', 'UNION12', 'NEST', 'ANON', 'PH60', 'SEGd', 'DB1', 'ORG41'],
+    'struct': ['STRUCT12', 'UNION12', 'NEST', 'ANON', 'NESTI', 'ANONI', 'PH60', 'SEGd', 'DB1', 'ORG41'],
 }
 
 
